@@ -8,7 +8,7 @@ W=$(mktemp -d /tmp/seedw.XXXX)
 git -C /repo worktree add -q --detach $W HEAD
 cd $W
 echo "== demo on unchanged tree"; g++ -std=c++11 -I$W/include $W/src/*.cpp $OUT/demo.cpp -o $W/demo0 -lpthread 2>&1 | tail -3; (cd $OUT && $W/demo0 >/dev/null 2>&1; echo "exit=$?")
-git apply $OUT/patch.diff || { echo "PATCH DOES NOT APPLY"; }
+git apply $OUT/patch.diff 2>/dev/null || patch -s -p1 -F3 < $OUT/patch.diff || { echo "PATCH DOES NOT APPLY"; }
 echo "== demo with the change"; g++ -std=c++11 -I$W/include $W/src/*.cpp $OUT/demo.cpp -o $W/demo1 -lpthread 2>&1 | tail -3; (cd $OUT && $W/demo1 2>&1 | tail -2; echo "exit=${PIPESTATUS[0]}")
 echo "== test suite with the change"
 mkdir -p $W/external && rm -rf $W/external/gtest && cp -r /repo/external/gtest $W/external/gtest 2>/dev/null
@@ -16,7 +16,7 @@ cmake -G Ninja -S $W -B $W/_b -DBUILD_TESTS=ON -DBUILD_EXAMPLE=OFF -DCMAKE_BUILD
 cd /; git -C /repo worktree remove --force $W
 for P in $PROPS; do
   echo "== check $P with the change applied to /repo"
-  git -C /repo apply $OUT/patch.diff && (cd /verif && bin/check $P quick 2>&1 | grep "^VIOLATION\|^  \|^\[$P\]\|INFRA" | cut -c1-260 | head -8)
-  git -C /repo checkout -- . 
+  (git -C /repo apply $OUT/patch.diff 2>/dev/null || (cd /repo && patch -s -p1 -F3 < $OUT/patch.diff)) && (cd /verif && bin/check $P quick 2>&1 | grep "^VIOLATION\|^  \|^\[$P\]\|INFRA" | cut -c1-260 | head -8)
+  git -C /repo checkout -- . ; find /repo/src /repo/include -name '*.orig' -delete -o -name '*.rej' -delete
 done
 git -C /repo status --short | grep -v _build
